@@ -182,6 +182,10 @@ def draw_options(rng, fmt, trajs, ref, meta, work, force=None):
     if on("plane", .25):
         o["plane"] = ["xy", "xz", "yz"][rng.integers(3)]
         argv += ["--project_to_plane", o["plane"]]
+    # options that must not influence the exports
+    for extra in (["-v"], ["--silent"], ["--debug"], ["--full_check"], ["--show_full_names"], ["--plot_mode", "zx"]):
+        if rng.random() < .08:
+            argv += extra
     return argv, o
 
 
